@@ -1,7 +1,7 @@
 (* C05 - KVStore operations (mapdb, realm views, batches, flushkv) are linearizable under concurrent use.
    Statements only; proofs in C05_KVConc/{Lin,Proofs,Locks}.v over the executable model C05_KVConc/Model.v. *)
 From Coq Require Import NArith List Bool Arith Permutation.
-From Verif.C05_KVConc Require Import Model Lin Proofs Locks.
+From Verif.C05_KVConc Require Import Model Lin Proofs Locks BatchModel BatchProofs.
 Import ListNotations.
 
 (* ------------------------------------------------------------------ linearizability, all schedules *)
@@ -83,6 +83,61 @@ Theorem C05_effects_under_lock : forall scripts sch th o p,
   In th (threads (run sch (init scripts))) -> cur th = Some (IEff o :: p) ->
   exists w, hm th = Some w /\ (is_write o = true -> w = true).
 Proof. exact effects_under_lock. Qed.
+
+(* ------------------------------------------------------------------ a batch object shared by goroutines (round 2) *)
+(* One BatchedMutations object used by ANY number of goroutines and reused after Commit / Cancel (BatchModel.v: the
+   programs of mapdb's batchedMutations over the batch's own mutex; the flushkv batch forwards to one underlying batch).
+   The history of the batch object - Set/Delete = OSet k (encv x), Cancel = ODelPrefix [], a Commit that got past the
+   `closed` test = OIter [] returning the content it applies - is linearizable for all scripts and schedules: every Set/
+   Delete/Cancel takes effect, and every Commit reads the content, at one instant between invocation and return.
+   The store part of such a Commit is compile (CCommit w content), covered by C05_linearizable for every content. *)
+Theorem C05_shared_batch_linearizable : forall (scripts : list (list bcall)) (sch : list nat),
+  linearizable (brecs (brun sch (binit scripts))).
+Proof. exact batch_linearizable. Qed.
+
+(* No accepted write is lost: a Set/Delete that RETURNED before a Commit was INVOKED is part of the content that Commit
+   applies (when nothing else touched that key and nobody cancelled; with several writes of one key the linearizability
+   above says which one wins). Since Commit does not empty the batch, every later Commit applies it as well. *)
+Theorem C05_shared_batch_no_lost_write : forall scripts sch,
+  let h := brecs (brun sch (binit scripts)) in
+  forall p c k v n l,
+    In p h -> In c h -> o_op p = OSet k v ->
+    o_op c = OIter [] 0 true false n -> o_ret c = RList l ->
+    precedes p c ->
+    length (filter (fun q => touches k (o_op q)) h) = 1 ->
+    In (k, v) l.
+Proof. exact accepted_write_not_lost. Qed.
+
+(* The statement fails for the wrapper variant whose Commit replaces the underlying batch by a fresh one after
+   committing (BatchModel.wstep; NOT the code): same hypotheses, the committed content lacks the write. Real code:
+   seeded/C05-m6 (harness families sbatch / sbatch-dir). *)
+Theorem C05_refuted_batch_swapped_on_commit :
+  exists scripts sch, loses_write (wrecs (wrun sch (winit scripts))).
+Proof. exact swapping_wrapper_loses. Qed.
+
+(* ... and never holds of the model of the code (loses_write = the negation of the conclusion above under its hypotheses) *)
+Theorem C05_shared_batch_never_loses : forall scripts sch, ~ loses_write (brecs (brun sch (binit scripts))).
+Proof. exact code_never_loses. Qed.
+
+(* non-vacuity: the same two goroutines on the model of the code (Set "b" arrives while the first Commit holds the batch's
+   mutex): the hypotheses of C05_shared_batch_no_lost_write hold for that Set and the second Commit, whose content has it *)
+Definition sb_sch : list nat := [0;0;0;0;0; 0;0;0;0; 1;1; 0;0; 1;1;1;1; 0;0;0;0;0;0].
+Example sb_history :
+  map (fun r => (o_call r, o_inv r, o_res r, o_op r, o_ret r)) (brecs (brun sb_sch (binit w_scripts))) =
+  [((0, 0), 0, Some 4, OSet [97]%N [1; 1]%N, ROk);
+   ((0, 1), 5, Some 11, OIter [] 0 true false 1, RList [([97]%N, [1; 1]%N)]);
+   ((1, 0), 9, Some 15, OSet [98]%N [1; 2]%N, ROk);
+   ((0, 2), 16, Some 21, OIter [] 0 true false 2, RList [([97]%N, [1; 1]%N); ([98]%N, [1; 2]%N)])].
+Proof. vm_compute. reflexivity. Qed.
+Example sb_hyps :
+  let h := brecs (brun sb_sch (binit w_scripts)) in
+  let p := mkO (1, 0) 9 (Some 15) (OSet [98]%N [1; 2]%N) ROk in
+  let c := mkO (0, 2) 16 (Some 21) (OIter [] 0 true false 2) (RList [([97]%N, [1; 1]%N); ([98]%N, [1; 2]%N)]) in
+  In p h /\ In c h /\ precedes p c /\ length (filter (fun q => touches [98]%N (o_op q)) h) = 1.
+Proof. vm_compute. repeat split; auto 10. Qed.
+Example sb_content_is_what_commit_applies :
+  content_writes [([97]%N, [1; 1]%N); ([98]%N, [0]%N)] = [([97]%N, Some [1]%N); ([98]%N, None)].
+Proof. reflexivity. Qed.
 
 (* ------------------------------------------------------------------ the executable history checker *)
 (* Soundness: a history accepted by lin_check IS linearizable. Used by the correspondence on histories
@@ -204,3 +259,7 @@ Print Assumptions C05_no_deadlock.
 Print Assumptions C05_refuted_rlock_across_callbacks.
 Print Assumptions C05_effects_under_lock.
 Print Assumptions C05_lin_check_sound.
+Print Assumptions C05_shared_batch_linearizable.
+Print Assumptions C05_shared_batch_no_lost_write.
+Print Assumptions C05_refuted_batch_swapped_on_commit.
+Print Assumptions C05_shared_batch_never_loses.
